@@ -35,6 +35,13 @@ func (g *Gen) Message(mt protoreflect.MessageType) proto.Message {
 }
 
 func (g *Gen) fill(m protoreflect.Message, depth int) {
+	// Timestamps and Durations are coarse (multiples of 100 s, never zero, no nanos) so that two generated
+	// values are either equal or far outside any configured equivalence tolerance (models use 1 s).
+	switch m.Descriptor().FullName() {
+	case "google.protobuf.Timestamp", "google.protobuf.Duration":
+		m.Set(m.Descriptor().Fields().ByName("seconds"), protoreflect.ValueOfInt64(int64(100*(1+g.R.Intn(5)))))
+		return
+	}
 	fds := m.Descriptor().Fields()
 	doneOneof := map[string]bool{}
 	for i := 0; i < fds.Len(); i++ {
